@@ -299,6 +299,7 @@ func checkC06(w *World, r *Report) {
 	}
 	// index bookkeeping
 	ruleHeapIndex(w, r, "C06")
+	ruleOptionTable(w, r, "C06", map[string][3]string{"BarPriority": {tBState, "priority", "param"}, "BarID": {tBState, "id", "param"}})
 	// (c) default priority
 	if mk := w.makeBarStateFn(); mk != nil {
 		okP, okI := false, false
